@@ -27,6 +27,49 @@ pub(crate) mod __verif_io {
     pub(crate) use __verif_println as println;
 }
 
+/// Heap ledger of the native observation layer (C03/C04): a counting global allocator (installed by the nl-dump binary).
+/// LIVE = blocks allocated and not yet released, by anything in the process.
+#[cfg(nlverif)]
+pub mod __verif_heap {
+    use std::alloc::{GlobalAlloc, Layout, System};
+    use std::sync::atomic::{AtomicIsize, Ordering};
+    pub static LIVE: AtomicIsize = AtomicIsize::new(0);
+    pub struct Counting;
+    unsafe impl GlobalAlloc for Counting {
+        unsafe fn alloc(&self, l: Layout) -> *mut u8 {
+            LIVE.fetch_add(1, Ordering::Relaxed);
+            System.alloc(l)
+        }
+        unsafe fn alloc_zeroed(&self, l: Layout) -> *mut u8 {
+            LIVE.fetch_add(1, Ordering::Relaxed);
+            System.alloc_zeroed(l)
+        }
+        unsafe fn dealloc(&self, p: *mut u8, l: Layout) {
+            LIVE.fetch_sub(1, Ordering::Relaxed);
+            System.dealloc(p, l)
+        }
+        unsafe fn realloc(&self, p: *mut u8, l: Layout, n: usize) -> *mut u8 {
+            System.realloc(p, l, n)
+        }
+    }
+    pub fn live() -> isize {
+        LIVE.load(Ordering::Relaxed)
+    }
+    /// allocate and release blocks of the sizes the interpreter uses, filled with a pattern: memory the interpreter has
+    /// released is overwritten, so an object that was freed while still referenced reads as garbage
+    pub fn scribble() {
+        let mut keep: Vec<Vec<u8>> = Vec::with_capacity(256);
+        for round in 0..4 {
+            for size in [8usize, 16, 24, 32, 40, 48, 64, 96] {
+                for _ in 0..8 {
+                    keep.push(vec![0xA5u8 ^ round as u8; size]);
+                }
+            }
+        }
+        std::hint::black_box(&keep);
+    }
+}
+
 #[cfg(nlverif)]
 pub mod __verif_dump {
     use crate::ast::*;
@@ -212,11 +255,16 @@ pub mod __verif_dump {
         }
     }
 
-    /// The real `eval`, with output captured; panics are caught and reported
+    /// The real `eval`, with output captured; panics are caught and reported.
+    /// As with the public `eval`, the machine (and its collector) is gone before the result is looked at; the result is then
+    /// released the way a caller would (Object::free_recursive) and the heap ledger is audited: "leak" = blocks still allocated
+    /// after everything the evaluation created has been dropped (0 expected; negative = something was released twice).
     pub fn eval_json(src: &str) -> String {
         let _ = crate::__verif_io::take();
+        let live0 = crate::__verif_heap::live();
         let s = src.to_string();
         let r = std::panic::catch_unwind(move || {
+            let s = s;
             // same three steps as crate::eval, but the failing stage is recorded
             let ast = match parse(&s) {
                 Ok(a) => a,
@@ -226,11 +274,26 @@ pub mod __verif_dump {
                 Ok(c) => c,
                 Err(e) => return format!("{{\"error\":{}}}", errjson("compile", &e)),
             };
-            outcome(VM::new().run(code))
+            let res = {
+                let mut vm = VM::new();
+                vm.run(code)
+                // the machine and its collector are dropped here
+            };
+            crate::__verif_heap::scribble();
+            let result_object = res.as_ref().ok().copied();
+            let j = outcome(res);
+            if let Some(o) = result_object {
+                o.free_recursive();
+            }
+            j
         });
         let out = crate::__verif_io::take();
         match r {
-            Ok(j) => format!("{{\"result\":{},\"output\":{}}}", j, jstr(&out)),
+            Ok(j) => {
+                let still = (j.capacity() > 0) as isize + (out.capacity() > 0) as isize;
+                let leak = crate::__verif_heap::live() - live0 - still;
+                format!("{{\"result\":{},\"output\":{},\"leak\":{}}}", j, jstr(&out), leak)
+            }
             Err(p) => {
                 let msg = if let Some(s) = p.downcast_ref::<&str>() { s.to_string() }
                     else if let Some(s) = p.downcast_ref::<String>() { s.clone() } else { "?".to_string() };
@@ -325,6 +388,9 @@ pub mod __verif_dump {
         std::io::stdin().read_to_string(&mut input).unwrap();
         // silence the default panic message; outcomes are reported as JSON
         std::panic::set_hook(Box::new(|_| {}));
+        // one-time allocations (thread-local output buffer, stdout, panic machinery) happen before any ledger is read
+        let _ = eval_json("print(1); stel a = [1.5, \"x\"]; a[5]");
+        let _ = std::panic::catch_unwind(|| panic!("warm-up"));
         let stdout = std::io::stdout();
         for rec in input.split('\u{0}') {
             if rec.is_empty() {
